@@ -24,10 +24,12 @@ pub fn mutf8(s: &[u32]) -> Vec<u8> {
 }
 
 #[derive(Clone, PartialEq, Eq, Hash)]
-enum Cp { Utf8(Vec<u8>), Class(u16), NameAndType(u16, u16), Methodref(u16, u16), IMethodref(u16, u16), Fieldref(u16, u16), Int(i32) }
+enum Cp { Utf8(Vec<u8>), Class(u16), NameAndType(u16, u16), Methodref(u16, u16), IMethodref(u16, u16), Fieldref(u16, u16), Int(i32), MethodHandle(u8, u16), InvokeDynamic(u16, u16) }
 
 #[derive(Default)]
-struct Pool { entries: Vec<Cp>, index: HashMap<Cp, u16> }
+struct Pool { entries: Vec<Cp>, index: HashMap<Cp, u16>,
+	/// the BootstrapMethods table: one method handle per entry, no static arguments
+	bsms: Vec<u16> }
 impl Pool {
 	fn add(&mut self, e: Cp) -> u16 {
 		if let Some(&i) = self.index.get(&e) { return i; }
@@ -44,6 +46,16 @@ impl Pool {
 		let ci = self.class(c); let nt = self.nat(n, d);
 		self.add(if iface { Cp::IMethodref(ci, nt) } else { Cp::Methodref(ci, nt) })
 	}
+	/// CONSTANT_InvokeDynamic for a call site `name desc` whose bootstrap method is the static method
+	/// `owner.bootstrap(Lookup, String, MethodType)CallSite` (REF_invokeStatic)
+	fn indy(&mut self, owner: &[u32], n: &[u32], d: &[u32]) -> u16 {
+		let bdesc = fbh::gal::cps_str("(Ljava/lang/invoke/MethodHandles$Lookup;Ljava/lang/String;Ljava/lang/invoke/MethodType;)Ljava/lang/invoke/CallSite;");
+		let m = self.mref(owner, &fbh::gal::cps_str("bootstrap"), &bdesc, false);
+		let h = self.add(Cp::MethodHandle(6, m));
+		let b = match self.bsms.iter().position(|&x| x == h) { Some(i) => i, None => { self.bsms.push(h); self.bsms.len() - 1 } } as u16;
+		let nt = self.nat(n, d);
+		self.add(Cp::InvokeDynamic(b, nt))
+	}
 	fn bytes(&self) -> Vec<u8> {
 		let mut o = vec![];
 		o.extend(((self.entries.len() + 1) as u16).to_be_bytes());
@@ -56,6 +68,8 @@ impl Pool {
 				Cp::Methodref(c, n) => { o.push(10); o.extend(c.to_be_bytes()); o.extend(n.to_be_bytes()); }
 				Cp::IMethodref(c, n) => { o.push(11); o.extend(c.to_be_bytes()); o.extend(n.to_be_bytes()); }
 				Cp::NameAndType(n, d) => { o.push(12); o.extend(n.to_be_bytes()); o.extend(d.to_be_bytes()); }
+				Cp::MethodHandle(k, r) => { o.push(15); o.push(*k); o.extend(r.to_be_bytes()); }
+				Cp::InvokeDynamic(b, n) => { o.push(18); o.extend(b.to_be_bytes()); o.extend(n.to_be_bytes()); }
 			}
 		}
 		o
@@ -103,7 +117,7 @@ fn body(pool: &mut Pool, me: &AMeth, calls: &[Call], rng: &mut Rng, this: &[u32]
 	for c in calls {
 		noise(&mut code, pool, rng);
 		let (ps, r) = desc_kinds(&c.target.desc);
-		if c.kind != CallKind::Static { code.push(0x2a); } // aload_0
+		if c.kind != CallKind::Static && c.kind != CallKind::Dynamic { code.push(0x2a); } // aload_0
 		let mut depth = 1u16;
 		for &p in &ps {
 			push_default(&mut code, p);
@@ -111,8 +125,9 @@ fn body(pool: &mut Pool, me: &AMeth, calls: &[Call], rng: &mut Rng, this: &[u32]
 			if p == 'L' && rng.chance(1, 3) { let ci = pool.class(&fbh::gal::cps_str("java/lang/Object")); code.push(0xc0); code.extend(ci.to_be_bytes()); } // checkcast
 		}
 		max_stack = max_stack.max(depth + 2);
-		let idx = pool.mref(&c.target.class, &c.target.name, &c.target.desc, c.iface_ref);
+		let idx = if c.kind == CallKind::Dynamic { pool.indy(&c.target.class, &c.target.name, &c.target.desc) } else { pool.mref(&c.target.class, &c.target.name, &c.target.desc, c.iface_ref) };
 		match c.kind {
+			CallKind::Dynamic => { code.push(0xba); code.extend(idx.to_be_bytes()); code.push(0); code.push(0); }
 			CallKind::Virtual => { code.push(0xb6); code.extend(idx.to_be_bytes()); }
 			CallKind::Special => { code.push(0xb7); code.extend(idx.to_be_bytes()); }
 			CallKind::Static => { code.push(0xb8); code.extend(idx.to_be_bytes()); }
@@ -164,6 +179,8 @@ pub fn assemble(c: &AClass, rng: &mut Rng) -> Vec<u8> {
 		}
 		methods.push(o);
 	}
+	// the attribute name must be in the pool before the pool is written
+	let bsm_name = if pool.bsms.is_empty() { 0 } else { pool.ascii("BootstrapMethods") };
 	let mut out = vec![0xCA, 0xFE, 0xBA, 0xBE, 0, 0, 0, 52];
 	out.extend(pool.bytes());
 	out.extend(c.flags.to_be_bytes());
@@ -174,7 +191,14 @@ pub fn assemble(c: &AClass, rng: &mut Rng) -> Vec<u8> {
 	out.extend(0u16.to_be_bytes()); // fields
 	out.extend((methods.len() as u16).to_be_bytes());
 	for m in methods { out.extend(m); }
-	out.extend(0u16.to_be_bytes()); // attributes
+	if pool.bsms.is_empty() { out.extend(0u16.to_be_bytes()); } // attributes
+	else {
+		out.extend(1u16.to_be_bytes());
+		out.extend(bsm_name.to_be_bytes());
+		out.extend(((2 + 4 * pool.bsms.len()) as u32).to_be_bytes());
+		out.extend((pool.bsms.len() as u16).to_be_bytes());
+		for h in &pool.bsms { out.extend(h.to_be_bytes()); out.extend(0u16.to_be_bytes()); }
+	}
 	out
 }
 
